@@ -208,6 +208,7 @@ def _cmp_lin(h, a, b):
 
 
 # --------------------------------------------------------------- normaliser
+MAP_AS_COMPREHENSION = True
 SIGNATURES: dict = {}
 METHOD_SIGNATURES: dict = {}
 
@@ -387,6 +388,12 @@ class Normaliser:
             args = tuple(lst)
             kwargs = tuple(sorted(kw.items(), key=lambda kv: kv[0]))
         if isinstance(f, ast.Name) and f.id not in self.env:
+            if MAP_AS_COMPREHENSION and f.id in ('map', 'filter') and len(e.args) == 2 and not e.keywords:
+                r = self._map_as_comp(f.id, e.args[0], e.args[1])
+                if r is not None:
+                    return r
+            if MAP_AS_COMPREHENSION and f.id == 'list' and len(args) == 1 and not kwargs and args[0][0] == 'comp' and args[0][1] == 'gen':
+                return ('comp', 'list') + args[0][2:]
             if f.id in ('min', 'max') and not kwargs and len(args) >= 2:
                 return minmax(f.id, args)
             if f.id == 'bool' and len(args) == 1:
@@ -400,6 +407,68 @@ class Normaliser:
             recv = self.norm(f.value)
             return ('mcall', recv, f.attr, args, kwargs)
         return ('callx', self.norm(f), args, kwargs)
+
+    # -- map / filter over one iterable are read as the generator expression they abbreviate
+    def _apply(self, fexpr, arg):
+        """term of ``fexpr(arg)`` when the function expression has a known meaning, else None"""
+        if isinstance(fexpr, ast.Lambda) and len(fexpr.args.args) == 1 and not fexpr.args.defaults:
+            name = fexpr.args.args[0].arg
+            old = self.env.get(name)
+            self.env[name] = arg
+            try:
+                return self.norm(fexpr.body)
+            finally:
+                if old is None:
+                    self.env.pop(name, None)
+                else:
+                    self.env[name] = old
+        if isinstance(fexpr, ast.Name) and fexpr.id not in self.env:
+            if fexpr.id == 'bool':
+                return truthy(arg)
+            return ('call', fexpr.id, (arg,), ())
+        if isinstance(fexpr, ast.Attribute):
+            if fexpr.attr == '__getitem__':
+                return ('sub', self.norm(fexpr.value), arg)
+            if fexpr.attr == '__contains__':
+                return cmp('In', arg, self.norm(fexpr.value))
+            if isinstance(fexpr.value, ast.Name) and fexpr.value.id in ('list', 'str', 'dict', 'set', 'tuple', 'deque') and fexpr.value.id not in self.env:
+                return ('mcall', arg, fexpr.attr, (), ())
+            return ('mcall', self.norm(fexpr.value), fexpr.attr, (arg,), ())
+        if isinstance(fexpr, ast.Call) and isinstance(fexpr.func, ast.Name) and fexpr.func.id == 'partial' and fexpr.args and 'partial' not in self.env:
+            g = fexpr.args[0]
+            pre = [self.norm(a) for a in fexpr.args[1:]]
+            kw = tuple(sorted(((k.arg or '**', self.norm(k.value)) for k in fexpr.keywords), key=lambda kv: kv[0]))
+            if isinstance(g, ast.Name) and g.id not in self.env and len(pre) == 1 and not kw:
+                a = pre[0]
+                table = {'getitem': lambda: ('sub', a, arg), 'eq': lambda: cmp('Eq', a, arg), 'ne': lambda: cmp('NotEq', a, arg),
+                         'is_': lambda: cmp('Is', a, arg), 'is_not': lambda: cmp('IsNot', a, arg), 'contains': lambda: cmp('In', arg, a),
+                         'lt': lambda: cmp('Lt', a, arg), 'le': lambda: cmp('LtE', a, arg), 'gt': lambda: cmp('Gt', a, arg), 'ge': lambda: cmp('GtE', a, arg)}
+                if g.id in table:
+                    return table[g.id]()
+            if isinstance(g, ast.Name) and g.id not in self.env:
+                return ('call', g.id, tuple(pre) + (arg,), kw)
+            if isinstance(g, ast.Attribute):
+                return ('mcall', self.norm(g.value), g.attr, tuple(pre) + (arg,), kw)
+        return None
+
+    def _map_as_comp(self, which, fexpr, iterable):
+        it = self.norm(iterable)
+        base = self._bound
+        var = ('bound', self._bound)
+        self._bound += 1
+        try:
+            if which == 'map':
+                body = self._apply(fexpr, var)
+                conds = ()
+            else:
+                body = var
+                c = var if (isinstance(fexpr, ast.Constant) and fexpr.value is None) else self._apply(fexpr, var)
+                conds = (truthy(c),) if c is not None else None
+        finally:
+            self._bound = base
+        if body is None or conds is None:
+            return None
+        return _rebase(('comp', 'gen', (body,), ((var, it, conds),)), base)
 
     # -- binders
     def _bind(self, names):
